@@ -251,6 +251,31 @@ func genLifecycle(repo string) (string, error) {
 			return "", err
 		}
 		fmt.Fprintf(&b, "def %s : List Region := %s\n", x[1], r)
+		// what the function does before it first takes stateLock: a call that can block there (another lock, a
+		// channel operation) delays the state change past the moment the call began
+		var pre []string
+		for _, st := range fd.Body.List {
+			if es, ok := st.(*ast.ExprStmt); ok {
+				if mu, m, ok := callOn(es.X); ok && strings.HasSuffix(mu, ".stateLock") && (m == "Lock" || m == "RLock") {
+					break
+				}
+			}
+			// Join reads the state through s.State() (which takes the lock itself) in its first statement
+			if x[0] == "Join" {
+				if is, ok := st.(*ast.IfStmt); ok && strings.Contains(exprString(is.Cond), ".State()") {
+					break
+				}
+			}
+			if _, ok := st.(*ast.DeclStmt); ok {
+				continue
+			}
+			pre = append(pre, strings.Join(strings.Fields(exprString(st)), " "))
+		}
+		q := make([]string, len(pre))
+		for i, t := range pre {
+			q[i] = fmt.Sprintf("%q", t)
+		}
+		fmt.Fprintf(&b, "/-- statements of %s before the state is first examined -/\ndef %sPreamble : List String := [%s]\n", x[0], x[1], strings.Join(q, ", "))
 	}
 	b.WriteString("\ndef progs : Progs := { leave := leave, shutdown := shutdown, join := join }\n\nend SerfModel.Gen.Lifecycle\n")
 	return b.String(), nil
